@@ -14,7 +14,7 @@ EXPLANATION = (
     "Option(_) arm also has a Box(_) arm, because the cycle breaker may wrap an Option node in a Box; (D4) the enum emitter's "
     "representation attributes are a function of EnumTagType with the holes bound to the IR's own tag/content fields, and "
     "property naming attributes follow StructPropertyRename; "
-    "D1 sees through the crate's own token-producing helpers; tabulated matches must have one unguarded arm per case."
+    "D1 sees through the crate's own token-producing helpers; tabulated matches must have one unguarded arm per case; (D5) a `uniqueItems` array is rendered as an order-preserving sequence (Vec): JSON arrays are ordered, a sorted set would rewrite them."
 )
 ASSUMPTIONS = ["serde's handling of default/skip_serializing_if/flatten/rename as documented"]
 
@@ -53,6 +53,7 @@ def quotes_reach(facts, c, h, node, depth=2):
 
 def run(facts, rep, tier):
     c = facts.impl
+    run_d5(facts, rep)
     gsa = [h for h in c.user_fns() if h["fn"].endswith("generate_serde_attr")]
     if not gsa:
         # by role: the fn whose templates contain skip_serializing_if
@@ -96,6 +97,12 @@ def run(facts, rep, tier):
                 state = re.search(r"StructPropertyState::(\w+)", p)
                 rep.ob("C03.D1", "skip-only-when-optional:%s" % cell, bool(state) and state.group(1) == "Optional", "only Optional members are skipped when empty")
         rep.floor("C03.D1", "arms with skip_serializing_if", n_skip, 3)
+        # .. and nowhere else in the selector: a `skip_serializing_if` pushed outside the (state, type) table is decided
+        # without the pairing the table guarantees
+        in_table = {id(q[1]) for arm in m[0]["arms"] for q in quotes_reach(facts, c, h, arm["body"])}
+        outside = [q for q in quotes_reach(facts, c, h, h["body"]) if q[0].startswith("skip_serializing_if=") and id(q[1]) not in in_table]
+        rep.ob("C03.D1", "skip-only-inside-the-table", not outside, "every skip_serializing_if is pushed by an arm of the (state, type) table" if not outside else
+               "`%s` is pushed outside the (state, type) table: it is not tied to the Optional state, so a member with a non-empty schema default is dropped when it holds the empty value and comes back as its default" % outside[0][0][:70], outside[0][1].get("sp") if outside else None)
 
     # ------------------------------------------------------------ D2 rename
     rc = [x for x in c.user_fns() if x["fn"].endswith("util::recase")]
@@ -201,3 +208,23 @@ def run(facts, rep, tier):
             rep.ob("C03.D4", "tag-scrutinee", bool(re.fullmatch(r"\S*~TypeEntryEnum\.tag_type", cne.r(mt[0]["scrut"]))), "match on the entry's tag_type")
         serde_t = [t for t in ee.templates if t.bound == "serde"]
         rep.ob("C03.D4", "enum-attrs-interpolated", bool(serde_t) and bool(ee.used_as_hole(ee.actual.get("serde", "serde"))) and re.sub(r"#\w+", "#x", serde_t[0].text.replace(" ", "")) == "#[serde(#(#x),*)]", "#[serde(#(#serde_options),*)] is attached to the enum")
+
+
+def run_d5(facts, rep):
+    c = facts.impl
+    ti = [h for h in c.user_fns() if ends(h["fn"], "TypeEntry::type_ident")]
+    if not rep.floor("C03.D5", "type renderer", len(ti), 1):
+        return
+    n_ = 0
+    for m, _ in nodes(ti[0]["body"], "match"):
+        if m.get("src") != "normal" or "TypeEntryDetails" not in c.ty(m.get("scty")):
+            continue
+        for a in m["arms"]:
+            if "Set" not in [v.split("::")[-1] for v in pat_top_variants(a["pat"])]:
+                continue
+            n_ += 1
+            ts = [q[0] for q in quotes_in(facts, a["body"])]
+            ok = bool(ts) and all(re.fullmatch(r"(::std::vec::)?Vec<#\w+>", t) for t in ts)
+            rep.ob("C03.D5", "set-keeps-order", ok, "Set(T) is rendered `%s`" % ts[0] if ok else
+                   "a uniqueItems array is rendered as %s: a sorted or hashed set reorders the elements of a JSON array, so the instance does not round-trip to an equal value" % ts, a.get("sp"))
+    rep.floor("C03.D5", "Set arm of the type renderer", n_, 1)
